@@ -84,6 +84,13 @@ var ctx = context.Background()
 // the byte order of the ids any more. Ids that collide after lower-casing are left out.
 var lowerIDs bool
 
+// upsertItems: the listed items are not created with Create / Add but by UPDATES that create what is absent and write
+// one field that is not the key (a masked upsert): an item made that way is an item like any other - it carries its
+// key and pages like the rest.
+var upsertItems bool
+
+var upsertable = map[string]bool{"electric.ListModes": true, "vending.ListConsumables": true, "vending.ListInventory": true}
+
 func lowerOpt() []resource.Option {
 	if lowerIDs {
 		return []resource.Option{resource.WithIDInterceptor(strings.ToLower)}
@@ -123,6 +130,12 @@ var listers = []lister{
 		ids = usable(ids)
 		m := electricpb.NewModel(electricpb.WithModeOption(lowerOpt()...))
 		for _, id := range ids {
+			if upsertItems {
+				if _, err := m.UpdateMode(&traits.ElectricMode{Id: id, Title: "t" + id}, resource.WithCreateIfAbsent(), resource.WithUpdatePaths("title")); err != nil {
+					panic(err)
+				}
+				continue
+			}
 			if err := m.AddMode(&traits.ElectricMode{Id: id, Title: "t" + id}); err != nil {
 				panic(err)
 			}
@@ -210,6 +223,12 @@ var listers = []lister{
 		ids = usable(ids)
 		m := vendingpb.NewModel(vendingpb.WithConsumablesOption(lowerOpt()...))
 		for _, id := range ids {
+			if upsertItems {
+				if _, err := m.UpdateConsumable(&traits.Consumable{Name: id, Title: "t" + id}, resource.WithCreateIfAbsent(), resource.WithUpdatePaths("title")); err != nil {
+					panic(err)
+				}
+				continue
+			}
 			if _, err := m.CreateConsumable(&traits.Consumable{Name: id}); err != nil {
 				panic(err)
 			}
@@ -232,6 +251,12 @@ var listers = []lister{
 		ids = usable(ids)
 		m := vendingpb.NewModel(vendingpb.WithInventoryOption(lowerOpt()...))
 		for _, id := range ids {
+			if upsertItems {
+				if _, err := m.UpdateStock(&traits.Consumable_Stock{Consumable: id, LastDispensed: &traits.Consumable_Quantity{Amount: 1}}, resource.WithCreateIfAbsent(), resource.WithUpdatePaths("last_dispensed")); err != nil {
+					panic(err)
+				}
+				continue
+			}
 			if _, err := m.CreateStock(&traits.Consumable_Stock{Consumable: id}); err != nil {
 				panic(err)
 			}
@@ -286,6 +311,7 @@ type pcase struct {
 	Masked bool   // the requests carry a read mask that leaves out the items' key
 	Then   int32  // != 0: every page after the first is requested with this page size instead
 	Lower  bool   // the model's collection lower-cases ids (id interceptor)
+	Upsert bool   // the items were created by masked upserts
 	PT     bool   // the lister's real tokens are base64 of a types.PageToken, and Token does NOT decode as one: it is malformed and must be refused
 }
 
@@ -312,7 +338,8 @@ func limit(size int32) int {
 func walk(l lister, c pcase, fail func(k, m string), tokens map[string]bool) {
 	useMask = c.Masked
 	lowerIDs = c.Lower
-	defer func() { useMask, lowerIDs = false, false }()
+	upsertItems = c.Upsert
+	defer func() { useMask, lowerIDs, upsertItems = false, false, false }()
 	list, want := l.build(c.Ids)
 	key := func(clause string) string {
 		ids := strings.Join(c.Ids, ",")
@@ -327,6 +354,9 @@ func walk(l lister, c pcase, fail func(k, m string), tokens map[string]bool) {
 		}
 		if c.Lower {
 			clause += "(ids lower-cased by the collection)"
+		}
+		if c.Upsert {
+			clause += "(items created by masked upserts)"
 		}
 		return fmt.Sprintf("%s %s size=%d ids=[%s] token=%q", clause, c.Lister, c.Size, ids, c.Token)
 	}
@@ -546,6 +576,13 @@ func main() {
 						s.Eval(1)
 						s.Trans(1)
 						walk(l, cl, func(k, m string) { s.Fail(k, m, cl) }, nil)
+					}
+					if upsertable[l.name] && size > 0 && size <= 3 && len(ids) <= 8 {
+						cu := c
+						cu.Upsert = true
+						s.Eval(1)
+						s.Trans(1)
+						walk(l, cu, func(k, m string) { s.Fail(k, m, cu) }, nil)
 					}
 					if size > 0 && size <= 7 && len(ids) <= 60 {
 						// the same walk with a read mask that leaves the items' key out
